@@ -251,6 +251,10 @@ pub fn gen_case_full(c: &mut Chooser, op: &str, prop: &str, small: bool, deep: b
     let topo = match op {
         "take" if matches!(prop, "C01" | "C02" | "C03" | "C04" | "C05" | "C13" | "C17" | "C20") => Topo::Unary(gen_unop(c, "take0")),
         "map" | "filter" | "scan" | "take" | "skip" => Topo::Unary(gen_unop(c, op)),
+        "merge" if !small && !wide && matches!(prop, "C01" | "C02" | "C03" | "C04" | "C05" | "C08" | "C17") && c.chance(1, 10) => {
+            allow_late = true;
+            Topo::MergeDup(1 + c.choose(3))
+        },
         "merge" => {
             allow_late = true;
             if wide {
@@ -306,7 +310,14 @@ pub fn gen_case_full(c: &mut Chooser, op: &str, prop: &str, small: bool, deep: b
     // Exception: the upstream of share (observation O2 in DESIGN.md: the unchanged share panics
     // when a second sink acts before a late upstream has greeted; outside every quantifier).
     // CBVERIF_LATE_ALL=1 lifts the exception (experiment only, not used by a registered check).
-    if prop == "C17" && !matches!(topo, Topo::Tree(_)) && (!matches!(topo, Topo::Share(_)) || std::env::var("CBVERIF_LATE_ALL").is_ok()) {
+    if prop == "C17" && !matches!(topo, Topo::Tree(_)) {
+        // (share's upstream too, since fix N: before it, the unchanged share panicked when a second
+        // sink acted before a late upstream had greeted - observation O2 in DESIGN.md)
+        allow_late = true;
+    }
+    if matches!(prop, "C01" | "C02" | "C03") && matches!(topo, Topo::Share(_)) {
+        // a shared source whose upstream greets late (share over a merge! of late members): every
+        // participant is conformant, and the edge rules C01-C03 must hold for the sinks all the same
         allow_late = true;
     }
     if indep && !matches!(topo, Topo::Share(_) | Topo::ForEach) {
@@ -344,7 +355,7 @@ pub fn gen_case_full(c: &mut Chooser, op: &str, prop: &str, small: bool, deep: b
     let n_puppets = match &topo {
         Topo::ForEach if indep => 2,
         Topo::Unary(_) | Topo::Share(_) | Topo::ForEach => 1,
-        Topo::Merge(n) | Topo::Concat(n) | Topo::Combine(n) => *n,
+        Topo::Merge(n) | Topo::Concat(n) | Topo::Combine(n) | Topo::MergeDup(n) => *n,
         Topo::Flatten(n) => 1 + n,
         Topo::FlattenRepeat(_) => 2,
         Topo::Tree(n) => n.n_leaves(),
